@@ -757,6 +757,8 @@ func sortByName(n string) Sort {
 		return SSlice
 	case "event":
 		return SEvent
+	case "intset":
+		return arrSort(SInt, SBool)
 	}
 	return Sort(n)
 }
